@@ -9,3 +9,4 @@ def rules(ctx):
     S.walker_rules(ctx)
     S.c10_rules(ctx)
     S.c06_r7_multimap(ctx)
+    S.loop_completeness_rules(ctx)
